@@ -1,8 +1,9 @@
 (* C29: the finite sweep of rotation counts 0..1100 on the instrumented model (a cross-check of
    the general theorems rotate_sem / rotate_oob by plain evaluation): exactly the counts above
    1024 index outside the name vector.  Kept in its own file: it evaluates 2 x 1101 rotations
-   (about 3 minutes, once).  The sweep lemmas are stated with the forallb spelled out so that
-   the kernel never has to unfold a definition around the big computation. *)
+   (a few seconds with the VM; about a minute under coqchk).  The sweep lemmas are stated with
+   the forallb spelled out so that the kernel never has to unfold a definition around the big
+   computation. *)
 From Coq Require Import NArith Arith List Ascii Bool Lia.
 From F8 Require Import C29.Rotate C29.Spec_C29.
 Import ListNotations.
